@@ -10,7 +10,7 @@ Inductive fkind := FBoolT | FIntT | FRaw.       (* Bool | #,int,long | int128,in
 Inductive tltype :=
 | TFixed (len : nat) (k : fkind) | TBytes | TString
 | TBoxed (cls : string) | TBare (name : string)
-| TVector (elem : tltype) (elem_named : bool)      (* elem_named: get_by_name(subtype) is a constructor *)
+| TVector (elem : tltype) (elem_name : string) (elem_named : bool)   (* elem_named: get_by_name(subtype) is a constructor *)
 | TNamedBoxed (name : string)                      (* entry point: schemas.serialize(name, data) *)
 | TUnsupported.
 Record tl_arg := mkArg { a_field : string; a_cond : option nat; a_ser_cond : bool; a_ty : tltype }.
@@ -57,6 +57,34 @@ Definition frame_bytes (l : list N) : list N :=
   let pre := if (n <=? 253)%nat then [N.of_nat n] else 254%N :: le_bytes 3 (N.of_nat n) in
   let body := (pre ++ l)%list in
   (body ++ repeat 0%N ((4 - List.length body mod 4) mod 4))%list.
+
+(* bytes.decode(): strict UTF-8 (no overlong forms, no surrogates, at most U+10FFFF) *)
+Fixpoint valid_utf8 (fuel : nat) (l : list N) : bool :=
+  match fuel with
+  | O => false
+  | S f =>
+    let cont (b : N) := ((128 <=? b) && (b <=? 191))%N in
+    match l with
+    | [] => true
+    | b0 :: r =>
+      if (b0 <? 128)%N then valid_utf8 f r
+      else if ((194 <=? b0) && (b0 <=? 223))%N then
+        match r with b1 :: r1 => cont b1 && valid_utf8 f r1 | _ => false end
+      else if (b0 =? 224)%N then
+        match r with b1 :: b2 :: r2 => ((160 <=? b1) && (b1 <=? 191))%N && cont b2 && valid_utf8 f r2 | _ => false end
+      else if (((225 <=? b0) && (b0 <=? 236)) || (b0 =? 238) || (b0 =? 239))%N then
+        match r with b1 :: b2 :: r2 => cont b1 && cont b2 && valid_utf8 f r2 | _ => false end
+      else if (b0 =? 237)%N then
+        match r with b1 :: b2 :: r2 => ((128 <=? b1) && (b1 <=? 159))%N && cont b2 && valid_utf8 f r2 | _ => false end
+      else if (b0 =? 240)%N then
+        match r with b1 :: b2 :: b3 :: r3 => ((144 <=? b1) && (b1 <=? 191))%N && cont b2 && cont b3 && valid_utf8 f r3 | _ => false end
+      else if ((241 <=? b0) && (b0 <=? 243))%N then
+        match r with b1 :: b2 :: b3 :: r3 => cont b1 && cont b2 && cont b3 && valid_utf8 f r3 | _ => false end
+      else if (b0 =? 244)%N then
+        match r with b1 :: b2 :: b3 :: r3 => ((128 <=? b1) && (b1 <=? 143))%N && cont b2 && cont b3 && valid_utf8 f r3 | _ => false end
+      else false
+    end
+  end.
 
 Section Tl.
   Variable tbl : tl_tbl.
@@ -118,7 +146,7 @@ Section Tl.
           | Some c, TVObj _ fs => ser_obj c fs true
           | _, _ => Err EAttr
           end
-      | TVector el _ =>
+      | TVector el _ _ =>
           match v with
           | TVVec l =>
               fold_left (fun acc x => bind acc (fun bytes => rmap (fun b => (bytes ++ b)%list) (ser_field f el x)))
@@ -203,22 +231,21 @@ Section Tl.
               let i2 := (i1 + blen)%nat in
               let i3 := if ((blen + attach) mod 4 =? 0)%nat then i2 else (i2 + (4 - (blen + attach) mod 4))%nat in
               bind (match a_ty a, val with
-                    | TString, TVBytes l => Ok (TVStr l)
+                    | TString, TVBytes l => if valid_utf8 (S (List.length l)) l then Ok (TVStr l) else Err EValue
                     | TString, _ => Err EAttr
                     | _, x => Ok x
                     end) (fun val' => Ok (i3, fs ++ [(a_field a, val')])))
-          | TVector el named =>
-              let n := N.to_nat (of_le (bslice d i (i + 4))) in
+          | TVector el elname named =>
+              let cnt := of_le (bslice d i (i + 4)) in
               let i1 := (i + 4)%nat in
-              if (List.length d - i1 <? n)%nat then Err ETl else
+              if (N.of_nat (List.length d - i1) <? cnt)%N then Err ETl else
+              let n := N.to_nat cnt in
               bind ((fix loop (k : nat) (i : nat) (acc : list tv) : result (nat * list tv) :=
                        match k with
                        | O => Ok (i, acc)
                        | S k' =>
-                           bind (match el, named with
-                                 | TBare nm, true => deser f (skipn i d) false (by_name tbl nm)
-                                 | _, _ => deser f (skipn i d) true None
-                                 end) (fun '(x, j) => loop k' (i + j)%nat (acc ++ [x]))
+                           bind (if named then deser f (skipn i d) false (by_name tbl elname)
+                                 else deser f (skipn i d) true None) (fun '(x, j) => loop k' (i + j)%nat (acc ++ [x]))
                        end) n i1 []) (fun '(i2, items) => Ok (i2, fs ++ [(a_field a, TVVec items)]))
           | TBare nm =>
               bind (deser f (skipn i d) false (by_name tbl nm)) (fun '(x, j) =>
